@@ -72,7 +72,8 @@ class CombinedBlock(Block, Parent, DAG):
             if input_args or ss_initial is not None:
                 # If this block is actually perturbed, or we start from different initial ss
                 # TODO: be more selective about ss_initial here - did any inputs change that matter for this one block?
-                impulses.update(block.impulse_nonlinear(ss, input_args, outputs & block.outputs, internals, Js, options, ss_initial))
+                # a block none of whose inputs is perturbed still transits from the initial steady state: its (empty) inputs must carry the horizon
+                impulses.update(block.impulse_nonlinear(ss, ImpulseDict(input_args, T=impulses.T), outputs & block.outputs, internals, Js, options, ss_initial))
 
         return ImpulseDict({k: impulses.toplevel[k] for k in original_outputs if k in impulses.toplevel}, impulses.internals, impulses.T)
 
